@@ -172,6 +172,19 @@ pub fn histories(tier: Tier) -> Vec<Hist> {
             ],
             deleted_nodes: vec![0], deleted_refs: vec![], c11: true,
         },
+        // a reference removed and then added again on the same peer: the old deletion record, replayed by another
+        // peer later on, must not remove the new reference
+        Hist {
+            name: "reference-removed-then-added-again",
+            peers: 3,
+            steps: vec![
+                Step::Clock(1), cp(0, 0, "a"), cq(0, 1, "q"), Step::ClockMs(1, 10), Step::AddRef { peer: 0, p: 0, q: 1 }, Step::PullAll,
+                Step::Clock(5), Step::DelRef { peer: 0, p: 0, q: 1 }, Step::Pull { dst: 1, src: 0 },
+                Step::ClockMs(5, 50), Step::AddRef { peer: 0, p: 0, q: 1 },
+                Step::ClockMs(5, 60), cp(1, 2, "x"),
+            ],
+            deleted_nodes: vec![], deleted_refs: vec![], c11: false,
+        },
         // day boundaries: the first and the last millisecond of a day belong to exactly one day for the summary,
         // the served rows and the deletion records alike
         Hist {
